@@ -15,7 +15,7 @@
 From Coq Require Import List Arith Bool ZArith NArith.
 From RxVerif Require Import Framing.Line Container.Parquet Container.JsonLines Container.JsonLinesProofs.
 From RxVerif Require Import Container.Json Container.JsonProofs Container.JsonC19.
-From RxVerif Require Import Container.FloatText Container.JsonFloat Container.JsonFloatProofs Container.JsonFloatC19.
+From RxVerif Require Import Container.FloatText Container.JsonFloat Container.JsonFloatProofs Container.JsonFloatC19 Container.C19EndToEnd.
 Import ListNotations.
 
 Theorem C19_load_any_rechunking_of_dump_partial :
@@ -332,6 +332,55 @@ Example C19_json_float_model_example :
   = [91; 49; 53; 51; 54; 46; 48; 44; 45; 48; 46; 48; 44; 49; 46; 49; 50; 53; 56; 57; 57; 57; 48; 54; 56; 52; 50; 54; 50; 52; 101; 43; 49; 54;
      44; 53; 101; 45; 51; 50; 52; 44; 55; 93]%Z.
 Proof. vm_compute. reflexivity. Qed.
+(* ---------------------------------------------------------------------------------------------
+   END TO END on the modelled stack, no premise left: orjson model with floats (JsonFloat.v) -> text -> UTF-8 incremental
+   codec model of C17 (Codec/Wrapper.v, encode / decode EUtf8) -> compression stage (none, or the gzip model of C16:
+   gz_comp = the STORED-BLOCK compressor of the model, not zlib's compressor; gz_decomp = the full inflate model, None on
+   Error or when the stream is not complete) -> file bytes in ANY re-chunking -> back.  Proved by re-doing the composition
+   with the codec premise restricted to texts of valid code points (C19EndToEnd.v, Section OkChars) and discharging every
+   stage law from the C16 / C17 theorems.  What this does not say: anything about zlib's own compressor, zstandard, the other
+   encodings, or CPython's codecs and orjson themselves (they are tied to these models by the correspondence checks of
+   C16, C17 and C19).
+   --------------------------------------------------------------------------------------------- *)
+Theorem C19_end_to_end_any_rechunking_plain : forall (objs : list wfjvf) (r : list (list Z)) (skip : nat) (ign : bool),
+  concat r = dump_to_file wfjvf Z Z 10%Z wff_dumps u8_encode id_compress objs ->
+  load_chunks wfjvf Z Z zf_is_nl wff_loads wff_is_null u8_decode id_decompress skip ign r
+  = (filter (fun o => negb (wff_is_null o)) (skipn skip objs), true).
+Proof. exact C19_e2e_load_any_rechunking_plain. Qed.
+Print Assumptions C19_end_to_end_any_rechunking_plain.
+Theorem C19_end_to_end_any_rechunking_gzip : forall (objs : list wfjvf) (r : list (list Z)) (skip : nat) (ign : bool),
+  concat r = dump_to_file wfjvf Z Z 10%Z wff_dumps u8_encode gz_comp objs ->
+  load_chunks wfjvf Z Z zf_is_nl wff_loads wff_is_null u8_decode gz_decomp skip ign r
+  = (filter (fun o => negb (wff_is_null o)) (skipn skip objs), true).
+Proof. exact C19_e2e_load_any_rechunking_gzip. Qed.
+Print Assumptions C19_end_to_end_any_rechunking_gzip.
+Theorem C19_end_to_end_load_from_file_plain : forall (objs : list wfjvf) (size skip : nat) (ign : bool),
+  load_from_file wfjvf Z Z zf_is_nl wff_loads wff_is_null u8_decode id_decompress size skip ign
+    (dump_to_file wfjvf Z Z 10%Z wff_dumps u8_encode id_compress objs)
+  = (filter (fun o => negb (wff_is_null o)) (skipn skip objs), true).
+Proof. exact C19_e2e_load_from_file_plain. Qed.
+Print Assumptions C19_end_to_end_load_from_file_plain.
+Theorem C19_end_to_end_load_from_file_gzip : forall (objs : list wfjvf) (size skip : nat) (ign : bool),
+  load_from_file wfjvf Z Z zf_is_nl wff_loads wff_is_null u8_decode gz_decomp size skip ign
+    (dump_to_file wfjvf Z Z 10%Z wff_dumps u8_encode gz_comp objs)
+  = (filter (fun o => negb (wff_is_null o)) (skipn skip objs), true).
+Proof. exact C19_e2e_load_from_file_gzip. Qed.
+Print Assumptions C19_end_to_end_load_from_file_gzip.
+Theorem C19_end_to_end_load_doc_plain : forall (o : wfjvf) (ign : bool), wff_is_null o = false ->
+  load_doc_from_file wfjvf Z Z wff_loads wff_is_null u8_decode id_decompress 0 ign
+    (dump_to_file wfjvf Z Z 10%Z wff_dumps u8_encode id_compress [o]) = ([o], true).
+Proof. exact C19_e2e_load_doc_from_file_plain. Qed.
+Print Assumptions C19_end_to_end_load_doc_plain.
+Theorem C19_end_to_end_load_doc_gzip : forall (o : wfjvf) (ign : bool), wff_is_null o = false ->
+  load_doc_from_file wfjvf Z Z wff_loads wff_is_null u8_decode gz_decomp 0 ign
+    (dump_to_file wfjvf Z Z 10%Z wff_dumps u8_encode gz_comp [o]) = ([o], true).
+Proof. exact C19_e2e_load_doc_from_file_gzip. Qed.
+Print Assumptions C19_end_to_end_load_doc_gzip.
+(* evaluated: 0.1, a non-ASCII string and a nested object with -0.0, read back in chunks of 1, 7 and 13 bytes *)
+Example C19_end_to_end_example :
+  map ex_run_plain [1; 7; 13]%nat = [(ex_values, true); (ex_values, true); (ex_values, true)]
+  /\ map ex_run_gzip [1; 7; 13]%nat = [(ex_values, true); (ex_values, true); (ex_values, true)].
+Proof. exact (conj C19_e2e_plain_example C19_e2e_gzip_example). Qed.
 Example C19_json_model_example :
   json_print (JObj [([97]%Z, JArr [JInt 1%Z; JNull; JStr [233; 10; 34]%Z])])
   = [123; 34; 97; 34; 58; 91; 49; 44; 110; 117; 108; 108; 44; 34; 195; 169; 92; 110; 92; 34; 34; 93; 125]%Z.
